@@ -104,9 +104,14 @@ def base_scenario(rng, proto=None, small=False):
     items = gen_items(rng, ids, threshold, n_items, big=not small)
     writes = gen_writes(rng, ids, threshold,
                         rng.randint(0, 3) if small else rng.randint(0, 12))
+    if not small and rng.random() < 0.04:
+        # a long run of small packets queued in one go (more than any write
+        # batch, more than a thousand)
+        writes = [['chat', 'b%d' % i]
+                  for i in range(rng.choice([350, 1100, 1500, 3000]))]
     reentrant = None
     real = [i for i, wr in enumerate(writes) if wr[0] != 'bad']
-    if not small and len(real) >= 2 and rng.random() < 0.12:
+    if not small and 2 <= len(real) <= 12 and rng.random() < 0.12:
         # an early outgoing listener answers one of the queued packets with
         # a forced write of its own while that packet is being written
         # (re-entrant use of the write lock, which the library supports)
